@@ -70,7 +70,7 @@ func genNode(r *core.PRNG, leaves int) *Node {
 
 func gen(r *core.PRNG, tier string) any {
 	if r.Chance(2, 5) {
-		p := &Plan{Seed: r.Uint64(), Policy: genNode(r, r.Range(1, 12)), Spaces: r.Intn(3), PolicyOnly: true}
+		p := &Plan{Seed: r.Uint64(), Policy: genNode(r, r.Range(1, 12)), Spaces: r.Intn(5), PolicyOnly: true}
 		for i, n := 0, r.Range(2, 8); i < n; i++ {
 			h := Holder{Attrs: map[string]string{}}
 			for _, l := range labels {
@@ -82,7 +82,7 @@ func gen(r *core.PRNG, tier string) any {
 		}
 		return p
 	}
-	p := &Plan{Seed: r.Uint64(), Sys: r.Intn(3), Policy: genNode(r, r.Range(1, 7)), MsgLen: r.EdgeLen(120, 0, 1, 16, 32), Spaces: r.Intn(3), Pos: r.Intn(1 << 20)}
+	p := &Plan{Seed: r.Uint64(), Sys: r.Intn(3), Policy: genNode(r, r.Range(1, 7)), MsgLen: r.EdgeLen(120, 0, 1, 16, 32), Spaces: r.Intn(5), Pos: r.Intn(1 << 20)}
 	if r.Chance(1, 4) {
 		p.Chunk = r.Range(1, 7)
 	}
@@ -136,7 +136,7 @@ func directed(tier string) []any {
 
 func (n *Node) print(sp int) string {
 	colon := ":"
-	if sp > 0 {
+	if sp > 0 && sp != 3 {
 		colon = ": "
 	}
 	switch n.Op {
@@ -148,8 +148,29 @@ func (n *Node) print(sp int) string {
 		}
 		return "not (" + n.L.print(sp) + ")"
 	default:
+		if sp >= 3 {
+			// flat chains: a child with the same operator needs no parentheses (and / or are
+			// associative), and the outermost pair is dropped by printTop
+			side := func(c *Node) string {
+				if c.Op == n.Op {
+					t := c.print(sp)
+					return t[1 : len(t)-1]
+				}
+				return c.print(sp)
+			}
+			return "(" + side(n.L) + " " + n.Op + " " + side(n.R) + ")"
+		}
 		return "(" + n.L.print(sp) + " " + n.Op + " " + n.R.print(sp) + ")"
 	}
+}
+
+// printTop prints the whole policy; in the flat styles the outermost parentheses are dropped.
+func (n *Node) printTop(sp int) string {
+	t := n.print(sp)
+	if sp >= 3 && (n.Op == "and" || n.Op == "or") {
+		return t[1 : len(t)-1]
+	}
+	return t
 }
 
 // eval: the semantics stated by the property — negations pushed to the leaves; a
@@ -264,7 +285,7 @@ func exec(planJSON []byte, run *core.Run) {
 		return
 	}
 	// policy: printed, parsed
-	src := p.Policy.print(p.Spaces)
+	src := p.Policy.printTop(p.Spaces)
 	var pol tkn20.Policy
 	if err := pol.FromString(src); err != nil {
 		run.Violate(comp+".Policy.FromString", "rejects-valid-policy", "%q: %v", src, err)
@@ -297,6 +318,23 @@ func exec(planJSON []byte, run *core.Run) {
 	}
 
 	var attrsObj tkn20.Attributes // one object, refilled for every holder (when the plan says so)
+	// history: the policy taken out of the ciphertext is used, as it is, to encrypt a reply
+	msg2 := core.NewPRNG(p.Seed + 2).Bytes(1 + p.MsgLen%40)
+	var ct2 []byte
+	pan2, v2, st2 := core.Try(func() { ct2, err = pk.Encrypt(core.NewStream(p.Seed+6), polX, msg2) })
+	if pan2 {
+		run.Violate(comp+".Encrypt", core.PanicClass(v2), "encrypting under the policy extracted from a ciphertext: %s at %s", v2, st2)
+		return
+	}
+	if err != nil {
+		run.Violate(comp+".Encrypt", "error", "under the policy extracted from a ciphertext of %q: %v", src, err)
+		return
+	}
+	run.Fault("history:reply-encrypted-under-extracted-policy")
+	if again := polX.String(); again != pol.String() {
+		run.Violate(comp+".Policy.ExtractFromCiphertext", "extracted-policy-changes-with-use", "the policy extracted from the ciphertext prints as %q after it was used to encrypt; the original prints as %q", again, pol.String())
+		return
+	}
 	for hi, h := range p.Holders {
 		want := p.Policy.eval(h.Attrs, false)
 		var attrs tkn20.Attributes
@@ -449,6 +487,18 @@ func exec(planJSON []byte, run *core.Run) {
 			run.Violate(comp+".AttributeKey.Decrypt", "unqualified-holder-decrypts", "policy %q, attributes %v: second use of the key", src, h.Attrs)
 			return
 		}
+		pt3, err3, ok3 := decrypt(ct2)
+		if !ok3 {
+			return
+		}
+		if want && (err3 != nil || !bytes.Equal(pt3, msg2)) {
+			run.Violate(comp+".AttributeKey.Decrypt", "reply-under-extracted-policy-undecryptable", "policy %q, attributes %v: a message encrypted under the policy extracted from the first ciphertext does not decrypt: %v", src, h.Attrs, err3)
+			return
+		}
+		if !want && err3 == nil {
+			run.Violate(comp+".AttributeKey.Decrypt", "unqualified-holder-decrypts", "policy %q, attributes %v: reply encrypted under the extracted policy", src, h.Attrs)
+			return
+		}
 	}
 	// the policy object was used for encryption and asked for satisfaction meanwhile:
 	// it still prints as it did at the start
@@ -462,7 +512,7 @@ func exec(planJSON []byte, run *core.Run) {
 // back to a policy with the same semantics, and Satisfaction keeps agreeing with the
 // stated semantics however often and in whatever order it is asked.
 func execPolicyOnly(p *Plan, run *core.Run, comp string) {
-	src := p.Policy.print(p.Spaces)
+	src := p.Policy.printTop(p.Spaces)
 	var pol tkn20.Policy
 	if err := pol.FromString(src); err != nil {
 		run.Violate(comp+".Policy.FromString", "rejects-valid-policy", "%q: %v", src, err)
